@@ -5,6 +5,7 @@ package gvc
 import (
 	"fmt"
 	"go/types"
+	"os"
 	"strings"
 
 	"golang.org/x/tools/go/ssa"
@@ -98,6 +99,9 @@ func (x *Exec) evalBool(st *State, fr *Frame, e Expr, sc *scope) (Term, error) {
 
 func (x *Exec) lookupIdent(st *State, fr *Frame, name string, sc *scope) (Val, error) {
 	if v, ok := sc.vars[name]; ok {
+		if os.Getenv("GVC_TRACE_IDENT") == name {
+			fmt.Fprintf(os.Stderr, "ident %s from sc.vars: %s\n", name, v.T.S)
+		}
 		return v, nil
 	}
 	if fr != nil {
@@ -115,6 +119,9 @@ func (x *Exec) lookupIdent(st *State, fr *Frame, name string, sc *scope) (Val, e
 				}
 			}
 			if v, ok := x.bindingVal(st, b); ok {
+				if os.Getenv("GVC_TRACE_IDENT") == name {
+					fmt.Fprintf(os.Stderr, "ident %s from names: %s (isAddr=%v) frame=%s block=%d pc=%d\n", name, v.T.S, b.isAddr, fr.fn.Name(), fr.block.Index, fr.pc)
+				}
 				return v, nil
 			}
 		}
@@ -126,6 +133,11 @@ func (x *Exec) lookupIdent(st *State, fr *Frame, name string, sc *scope) (Val, e
 	}
 	if v, ok := sc.extra[name]; ok {
 		return v, nil
+	}
+	if fr != nil {
+		if v, ok := x.latestDefinition(fr, name); ok {
+			return v, nil
+		}
 	}
 	if v, ok := x.specConsts[name]; ok {
 		return v, nil
@@ -677,6 +689,12 @@ func (x *Exec) evalCall(st *State, fr *Frame, e ECall, sc *scope) (Val, error) {
 			return Val{}, fmt.Errorf("aserror(): static type unknown")
 		}
 		return x.makeIface(st, args[0], args[0].Typ, types.Universe.Lookup("error").Type()), nil
+	case "accaddr", "valaddr":
+		// the address bytes a bech32 string decodes to (same symbol as the native models of
+		// sdk.AccAddressFromBech32 / ValAddressFromBech32)
+		fn := e.Fun[:3] + ".frombech32"
+		x.D.DeclareFun(fn, []string{SStr}, SBytes)
+		return Val{T: App(SBytes, fn, args[0].T)}, nil
 	case "has":
 		// has(m, k): key k is present in map m
 		if args[0].Typ != nil {
